@@ -200,3 +200,199 @@ Proof.
   unfold c07_cfg_tcp, max_seq. cbn. repeat split; try lia; try tauto.
   all: intros H; decompose [and] H; try lia; tauto.
 Qed.
+
+(* ====================================================================================================
+   Whole runs, second part (Proofs/SeqRuns.v).  More vocabulary that reads the event trace only:
+   [distinct_walk cur ev]: no send carries a number already used in its own round (every protocol).
+   [clear_walk c wr prs rs q ev]: in a round that began by restarting at the initial sequence (wr) no send reaches prs, the
+   first number of the round published before it.  [rounds_within k n ev]: no round hands more than k numbers to the
+   network.  [starts_walk lim init rs n ev]: the n-th send of the round that started at rs carries rs + n with n < 512
+   (its slot index in the 512-slot buffer); after a publication the next round starts at rs + n, unless lim <= rs + n: then
+   and only then it starts at init.  [tail_sends [] ev]: the numbers sent since the last publication.
+   ==================================================================================================== *)
+From TV Require Import Proofs.SeqRuns.
+
+(* TracerState::max_sequence, general regime: unless the strategy is Dublin and the target address is an IPv6 address
+   (16 octets - an IPv4-mapped target counts as IPv6, as in the code), the limit is 65535 - 512 = 65023 *)
+Theorem c07_max_sequence_general : forall c, Accept c -> ~ (multipath c = Dublin /\ is_v6 (target_addr c) = true) ->
+  max_sequence c = Ok 65023 /\ max_seq c = 65023.
+Proof. exact max_seq_general. Qed.
+
+(* TracerState::max_sequence, Dublin over IPv6: the limit is initial_sequence + 512, computed without u16 overflow *)
+Theorem c07_max_sequence_dublin_v6 : forall c, Accept c -> multipath c = Dublin -> is_v6 (target_addr c) = true ->
+  max_sequence c = Ok (initial_sequence c + 512) /\ max_seq c = initial_sequence c + 512.
+Proof. exact max_seq_dublin6. Qed.
+
+(* every run: every sequence number handed to Network::send_probe lies in [initial_sequence, max_sequence + 512) and
+   is at most 65534 *)
+Theorem c07_run_all_in_range : forall c t0 is, Accept c ->
+  let '(ev, o, sf) := run c t0 is in
+  Forall (fun p => initial_sequence c <= p_sequence p < max_seq c + 512 /\ p_sequence p <= 65534) (ev_probes ev).
+Proof. exact run_all_in_range. Qed.
+
+(* every run, every protocol (TCP with any number of re-issued probes included): within a round - the unfinished last
+   round too - no sequence number is handed to the network twice *)
+Theorem c07_run_distinct_within_round : forall c t0 is, Accept c ->
+  let '(ev, o, sf) := run c t0 is in distinct_walk [] ev.
+Proof. exact run_distinct. Qed.
+
+(* every run, every protocol: the EXACT condition for the separation of consecutive rounds.  The numbers of the round
+   published last are never re-used in the round in progress if and only if no round that began by restarting at the
+   initial sequence reaches the first number of the round before it.  (For ICMP / UDP the right-hand side always holds:
+   c07_run_separation; for TCP it can fail: F2, c07_separation_tcp_refuted and the two refutations below.) *)
+Theorem c07_run_separation_exact : forall c t0 is, Accept c ->
+  let '(ev, o, sf) := run c t0 is in
+  sep_walk [] [] ev <-> clear_walk c false (initial_sequence c) (initial_sequence c) (initial_sequence c) ev.
+Proof. exact run_sep_exact. Qed.
+
+(* every run, every protocol - so TCP - under the general limit: with an initial sequence of at most 63999 (the default
+   33434 for instance) consecutive rounds never share a sequence number, however many probes are re-issued *)
+Theorem c07_run_separation_initial_63999 : forall c t0 is, Accept c ->
+  ~ (multipath c = Dublin /\ is_v6 (target_addr c) = true) -> initial_sequence c <= 63999 ->
+  let '(ev, o, sf) := run c t0 is in sep_walk [] [] ev.
+Proof. exact run_sep_general_63999. Qed.
+
+(* every run, every protocol - so TCP - under the general limit, any initial sequence: if no round hands more than k
+   numbers to the network and initial_sequence + 2k <= 65023 (k = 256 for the largest initial sequence 64511), consecutive
+   rounds never share a sequence number *)
+Theorem c07_run_separation_small_rounds : forall c k t0 is, Accept c ->
+  ~ (multipath c = Dublin /\ is_v6 (target_addr c) = true) -> 0 <= k -> initial_sequence c + 2 * k <= 65023 ->
+  let '(ev, o, sf) := run c t0 is in rounds_within k 0 ev -> sep_walk [] [] ev.
+Proof. exact run_sep_general_rounds. Qed.
+
+(* the same for whatever limit the configuration has (Dublin over IPv6: initial + 512, so k = 256) *)
+Theorem c07_run_separation_small_rounds_any_limit : forall c k t0 is, Accept c -> 0 <= k ->
+  initial_sequence c + 2 * k <= max_seq c ->
+  let '(ev, o, sf) := run c t0 is in rounds_within k 0 ev -> sep_walk [] [] ev.
+Proof. exact run_sep_small_rounds. Qed.
+
+(* the bound 256 is exact (F2 sharpened): TCP from initial sequence 64511, rounds of 256 / 257 / 257 numbers (one probe
+   and 255 resp. 256 address-in-use re-issues), nothing fatal injected: the third round re-issues 64767, used by the second *)
+Theorem c07_tcp_rounds_of_257_refuted :
+  Accept (sr_tcp 64511) /\
+  exists is, Forall (no_fatal (sr_tcp 64511)) is /\
+    let '(ev, o, sf) := run (sr_tcp 64511) 0 is in rounds_within 257 0 ev /\ ~ sep_walk [] [] ev.
+Proof. exact sr_sep_257_refuted. Qed.
+
+(* the bound 63999 is exact (F2 sharpened): TCP from initial sequence 64000, rounds of 511 / 512 / 512 numbers, no
+   capacity error (the run goes on): the third round re-issues 64511, used by the second *)
+Theorem c07_tcp_initial_64000_refuted :
+  Accept (sr_tcp 64000) /\
+  exists is, Forall (no_fatal (sr_tcp 64000)) is /\
+    let '(ev, o, sf) := run (sr_tcp 64000) 0 is in o = Running /\ ~ sep_walk [] [] ev.
+Proof. exact sr_sep_64000_refuted. Qed.
+
+(* every run under the general limit: the restart at the initial sequence happens exactly when the round just published
+   ended at or above 65023; otherwise the next round continues where it ended.  Every send sits at slot index
+   sequence - round_sequence = n < 512 of the round buffer. *)
+Theorem c07_run_wrap_general : forall c t0 is, Accept c -> ~ (multipath c = Dublin /\ is_v6 (target_addr c) = true) ->
+  let '(ev, o, sf) := run c t0 is in starts_walk 65023 (initial_sequence c) (initial_sequence c) 0 ev.
+Proof. exact run_starts_general. Qed.
+
+(* every run of Dublin over IPv6: the same with the limit initial_sequence + 512 *)
+Theorem c07_run_wrap_dublin_v6 : forall c t0 is, Accept c -> multipath c = Dublin -> is_v6 (target_addr c) = true ->
+  let '(ev, o, sf) := run c t0 is in
+  starts_walk (initial_sequence c + 512) (initial_sequence c) (initial_sequence c) 0 ev.
+Proof. exact run_starts_dublin6. Qed.
+
+(* every run, however it ends: the counters of the final TracerState are those of the trace - the probes handed to the
+   network since the last publication carry exactly round_sequence .. sequence - 1, at most 512 numbers, buffer of 512 *)
+Theorem c07_run_final_counters : forall c t0 is, Accept c ->
+  let '(ev, o, sf) := run c t0 is in
+  tail_sends [] ev = zrange (round_sequence sf) (Z.to_nat (sequence sf - round_sequence sf)) /\
+  0 <= sequence sf - round_sequence sf <= 512 /\ length (buffer sf) = 512%nat.
+Proof. exact run_tail. Qed.
+
+(* a whole run that ends with InsufficientCapacity although the environment injected nothing fatal: the protocol is TCP
+   and the round in progress handed exactly its budget round_sequence .. round_sequence + 511 to the network - nothing
+   beyond it, no slot 512 *)
+Theorem c07_run_capacity_error : forall c t0 is ev sf, Accept c -> Forall (no_fatal c) is ->
+  run c t0 is = (ev, Failed_with EInsufficientCapacity, sf) ->
+  proto c = Tcp /\ sequence sf - round_sequence sf = 512 /\
+  tail_sends [] ev = zrange (round_sequence sf) 512 /\ length (buffer sf) = 512%nat.
+Proof. exact run_capacity_error. Qed.
+
+(* non-vacuity of the hypotheses above *)
+(* rounds of 256 from initial sequence 64511 (k = 256): the run wraps and stays separated *)
+Example c07_small_rounds_example :
+  Accept (sr_tcp 64511) /\ initial_sequence (sr_tcp 64511) + 2 * 256 <= 65023 /\
+  let '(ev, o, sf) := sr_run_256 in
+  rounds_within 256 0 ev /\ length (pubs ev) = 3%nat /\ round_sequence sf = 64511 + 256 /\ sep_walk [] [] ev.
+Proof. exact sr_run_256_ok. Qed.
+
+(* a run without fatal injections that ends with the capacity error after exactly 512 numbers *)
+Example c07_run_capacity_example :
+  Accept (sr_tcp 33434) /\ Forall (no_fatal (sr_tcp 33434)) (sr_round 513 0) /\
+  exists ev sf, run (sr_tcp 33434) 0 (sr_round 513 0) = (ev, Failed_with EInsufficientCapacity, sf) /\
+    tail_sends [] ev = zrange 33434 512.
+Proof. exact sr_capacity_ok. Qed.
+
+(* Dublin over IPv6 is accepted; two rounds of 200 probes continue at initial + 400, the third ends at initial + 600, past
+   the limit initial + 512, and the fourth starts at the initial sequence *)
+Example c07_dublin_v6_example :
+  Accept sr_dublin6 /\ multipath sr_dublin6 = Dublin /\ is_v6 (target_addr sr_dublin6) = true /\ proto sr_dublin6 = Udp /\
+  (let '(ev, o, sf) := run sr_dublin6 0 (sr_udp_round 200 0 ++ sr_udp_round 200 5000) in
+   length (ev_probes ev) = 400%nat /\ round_sequence sf = 33434 + 400) /\
+  (let '(ev, o, sf) := run sr_dublin6 0 (sr_udp_round 200 0 ++ sr_udp_round 200 5000 ++ sr_udp_round 200 10000) in
+   length (ev_probes ev) = 600%nat /\ round_sequence sf = 33434).
+Proof. exact sr_dublin6_ok. Qed.
+
+(* ====================================================================================================
+   Whole runs, third part (Proofs/SeqRounds.v).  [round_lists [] ev]: the sequence numbers of every round of the trace as
+   plain lists, in order of sending, the unfinished last round included.  [adjacent_disjoint l]: two consecutive lists of l
+   have no element in common.
+   ==================================================================================================== *)
+From TV Require Import Proofs.SeqRounds.
+
+(* what the separation walk says in plain lists: consecutive rounds have no sequence number in common *)
+Theorem c07_separation_reading : forall ev, sep_walk [] [] ev -> adjacent_disjoint (round_lists [] ev).
+Proof. exact sep_walk_reading. Qed.
+
+(* every run, every protocol: the sequence numbers of each round are pairwise distinct *)
+Theorem c07_run_rounds_pairwise_distinct : forall c t0 is, Accept c ->
+  let '(ev, o, sf) := run c t0 is in Forall (@NoDup Z) (round_lists [] ev).
+Proof. exact run_rounds_nodup. Qed.
+
+(* every run, ICMP and UDP, unconditionally: consecutive rounds use disjoint sets of sequence numbers *)
+Theorem c07_run_rounds_disjoint : forall c t0 is, Accept c -> proto c <> Tcp ->
+  let '(ev, o, sf) := run c t0 is in adjacent_disjoint (round_lists [] ev).
+Proof. exact run_rounds_disjoint. Qed.
+
+(* every run, TCP included, general limit, initial sequence at most 63999: the same *)
+Theorem c07_run_rounds_disjoint_initial_63999 : forall c t0 is, Accept c ->
+  ~ (multipath c = Dublin /\ is_v6 (target_addr c) = true) -> initial_sequence c <= 63999 ->
+  let '(ev, o, sf) := run c t0 is in adjacent_disjoint (round_lists [] ev).
+Proof. exact run_rounds_disjoint_63999. Qed.
+
+(* the budget at run level, forward direction: whenever a TCP run stands at a state whose round has used all 512 numbers
+   and the loop wants to send another probe, the run ends right there with InsufficientCapacity - whatever the environment
+   would have offered, nothing more is handed to the network, and the round's sends are exactly its 512 numbers *)
+Theorem c07_run_budget_exhausted_ends_run : forall c t0 pre i post ev0 s0, Accept c -> proto c = Tcp ->
+  run c t0 pre = (ev0, Running, s0) -> can_send c s0 = Ok true -> sequence s0 - round_sequence s0 = 512 ->
+  run c t0 (pre ++ i :: post) = (ev0, Failed_with EInsufficientCapacity, s0) /\
+  tail_sends [] ev0 = zrange (round_sequence s0) 512.
+Proof. exact run_budget_exhausted. Qed.
+
+(* the probe that takes the last number of the budget meets address-in-use: it was handed to the network once, carrying
+   round_sequence + 511 (slot 511), and the run ends with InsufficientCapacity instead of re-issuing into slot 512 *)
+Theorem c07_run_budget_last_number_collides : forall c t0 pre i post ev0 s0 rest, Accept c -> proto c = Tcp ->
+  run c t0 pre = (ev0, Running, s0) -> can_send c s0 = Ok true -> sequence s0 - round_sequence s0 = 511 ->
+  i_sends i = AddressInUseO :: rest ->
+  exists p s1, p_sequence p = round_sequence s0 + 511 /\ sequence s1 - round_sequence s1 = 512 /\
+    run c t0 (pre ++ i :: post) = (ev0 ++ [ESend p AddressInUseO], Failed_with EInsufficientCapacity, s1).
+Proof. exact run_budget_last_collides. Qed.
+
+(* the list reading is not vacuous *)
+Example c07_round_lists_example :
+  round_lists [] [ESend (sr_probe 7) Sent; ESend (sr_probe 8) Sent; EPublish sr_rec; ESend (sr_probe 9) Sent] = [[7; 8]; [9]] /\
+  adjacent_disjoint [[7; 8]; [9]; [7]] /\ ~ adjacent_disjoint [[7; 8]; [8]] /\ ~ Forall (@NoDup Z) [[7; 7]].
+Proof. exact round_lists_example. Qed.
+
+(* the hypotheses of the two budget theorems are met: after one probe and 511 (resp. 510) collisions the run is still
+   running, the loop wants to send the probe for the next time-to-live, and 512 (resp. 511) numbers are used *)
+Example c07_run_budget_example :
+  (let '(ev0, o, s0) := run c07_cfg_tcp 0 [c07_it (repeat AddressInUseO 511) 10] in
+   o = Running /\ can_send c07_cfg_tcp s0 = Ok true /\ sequence s0 - round_sequence s0 = 512) /\
+  (let '(ev0, o, s0) := run c07_cfg_tcp 0 [c07_it (repeat AddressInUseO 510) 10] in
+   o = Running /\ can_send c07_cfg_tcp s0 = Ok true /\ sequence s0 - round_sequence s0 = 511).
+Proof. split; vm_compute; repeat split. Qed.
